@@ -112,7 +112,7 @@ def _simplify_config(case):
         yield c
 
 
-def minimise(case, sched, fails, cls, simplify_params=None, budget=None):
+def minimise(case, sched, fails, cls, simplify_params=None, budget=None, valid=None):
     """fails(case, sched) -> (class or None, outcome).  Returns (case, sched, log)."""
     budget = budget or Budget()
     log = []
@@ -120,6 +120,8 @@ def minimise(case, sched, fails, cls, simplify_params=None, budget=None):
     def attempt(c, s, what):
         if c is None or not budget.left():
             return False
+        if valid is not None and not valid(c):
+            return False            # outside the property's domain: not a candidate
         budget.n += 1
         try:
             got, _ = fails(c, s)
